@@ -59,15 +59,54 @@ def to_formula(v, facts, fname):
         f = ('or', [('cmp', '==', x, to_term(a, facts, fname)) for a in v[3][1]])
         return f if v[1] == 'in' else ('not', f)
     if k == 'cmp' and v[1] in ('==', '!=', '<', '<=', '>', '>='):
-        return ('cmp', v[1], to_term(v[2], facts, fname), to_term(v[3], facts, fname))
+        return cmp_formula(v[1], v[2], v[3], facts, fname)
     if k == 'bool':
         return (v[1], [to_formula(x, facts, fname) for x in v[2]])
     if k == 'un' and v[1] == 'not':
         return ('not', to_formula(v[2], facts, fname))
+    if k == 'orelse':
+        # try: X  except: <constant>  -- where the evaluation of X fails the predicate is the constant
+        if is_const(v[2]) and v[2][1] is False:
+            return to_formula(v[1], facts, fname)
+        raise AnalysisError('predicate {}: a failing evaluation makes the predicate {!r}'.format(fname, v[2][1]))
+    if k == 'call' and v[1] == 'isinstance' and len(v[2]) == 2 and v[2][0] == ('attr', INST, 'imm') and v[2][1] == ('name', 'Arithmetic'):
+        return ('cmp', '==', ('ISARITH',), ('const', True))
     if k == 'ifexp':
         c, a, b = to_formula(v[1], facts, fname), to_formula(v[2], facts, fname), to_formula(v[3], facts, fname)
         return ('or', [('and', [c, a]), ('and', [('not', c), b])])
     raise AnalysisError('predicate {}: result {} is not a comparison'.format(fname, show(v)[:100]))
+
+
+TRUE, FALSE = ('and', []), ('or', [])
+
+
+def cmp_formula(op, a, b, facts, fname):
+    """Formula of `a <op> b` where an operand may be a conditional value or a value with a failure fallback."""
+    for x, y, left in ((a, b, True), (b, a, False)):
+        if x[0] == 'res':
+            x = x[3]
+        if x[0] == 'ifexp':
+            c = to_formula(x[1], facts, fname)
+            fa = cmp_formula(op, x[2], y, facts, fname) if left else cmp_formula(op, y, x[2], facts, fname)
+            fb = cmp_formula(op, x[3], y, facts, fname) if left else cmp_formula(op, y, x[3], facts, fname)
+            return ('or', [('and', [c, fa]), ('and', [('not', c), fb])])
+        if x[0] == 'orelse':
+            # X where its evaluation succeeds, the constant K where it fails: representable when `K <op> y` is false (the
+            # predicate is simply false where X is undefined, which is how formulas read undefined terms anyway)
+            fk = cmp_formula(op, x[2], y, facts, fname) if left else cmp_formula(op, y, x[2], facts, fname)
+            if fk != FALSE:
+                raise AnalysisError('predicate {}: a failing evaluation does not make the comparison false'.format(fname))
+            return cmp_formula(op, x[1], y, facts, fname) if left else cmp_formula(op, y, x[1], facts, fname)
+    if is_const(a) and is_const(b):
+        va, vb = a[1], b[1]
+        try:
+            r = {'==': va == vb, '!=': va != vb}.get(op)
+            if r is None:
+                r = {'<': va < vb, '<=': va <= vb, '>': va > vb, '>=': va >= vb}[op]
+        except TypeError:
+            raise AnalysisError('predicate {}: comparison {!r} {} {!r} raises'.format(fname, va, op, vb))
+        return TRUE if r else FALSE
+    return ('cmp', op, to_term(a, facts, fname), to_term(b, facts, fname))
 
 
 def to_term(v, facts, fname):
@@ -94,6 +133,9 @@ def to_term(v, facts, fname):
         RAW_COMPARES.append((fname, v[2]))
         return ('REG', v[2])
     if v[0] == 'mcall' and v[2] == 'eval' and v[1] == ('attr', i, 'imm'):
+        if len(v[3]) >= 2 and v[3][1][0] == 'name' and v[3][1][1] != 'labels' and v[3][1] != e:
+            # evaluated against a table that is not the label environment (the pass's constants): label-independent
+            return ('IMMC', v[3][1][1])
         return ('IMM',)
     if v[0] == 'call' and v[1] in facts.funcs and len(v[2]) >= 2 and v[2][0] == i and v[2][1] == p:
         # wrapper around i.imm.eval (judged by R-auipc)
